@@ -1,8 +1,11 @@
 import StepModel.P21.Grammar
 import StepModel.Generated.P21LexGen
+import StepModel.P21.Reader
+import StepModel.Generated.P21RWGen
 /-! Line-protocol driver for the `IStream`, `FloatOps` and `P21.Lex` models (same protocol as
 harness/h_literals.cc and harness/h_stream.cc; see those files for the request formats). -/
 open StepModel StepModel.P21
+namespace C09Drv
 
 def hexDigit (n : Nat) : Char := if n < 10 then Char.ofNat (48 + n) else Char.ofNat (55 + n)
 
@@ -106,6 +109,49 @@ def runScript (ops : List Char) (s : IStream) : String := Id.run do
     out := out ++ s!" {op}:{r.1}/{s.pos}/{b2s s.eof}{b2s s.fail}{b2s s.bad}"
   return out
 
+/-! ### aggregates of simple kinds: `STEPattribute::STEPread` of a required `LIST OF <kind>` attribute through the reader
+model of `P21/Reader.lean` (`attrSTEPread` → `aggrRead` → `elemRead`), the model the aggregate theorems are about -/
+
+def aggLookup : Lookup := fun id =>
+  if id == 1 || id == 5 || id == 12 || id == 123 || id == 2147483647 then some ["TGT"] else if id == 7 then some ["OTHER"] else none
+
+def aggEnv : Env Nat :=
+  { ops := dblOps, lex := cfg, cfg := StepModel.Generated.rwCfg, dict := ⟨[], [], []⟩, lookup := aggLookup }
+
+def parseElemTy : String → Option (ElemTy × Kind)
+  | "INTEGER" => some (.integer, .integer) | "REAL" => some (.real, .real) | "NUMBER" => some (.number, .number)
+  | "STRING" => some (.string, .string) | "BINARY" => some (.binary, .binary) | "BOOLEAN" => some (.boolean, .boolean)
+  | "LOGICAL" => some (.logical, .logical) | "ENUM" => some (.enum colorItems, .enumeration colorItems)
+  | "REF" => some (.entity "TGT", .ref) | _ => none
+
+def showAtom (k : Kind) : Atom Nat → String
+  | .unset => "unset"
+  | .int v => s!"i:{v}"
+  | .real v => "r:" ++ hex16 v
+  | .str t => "s:" ++ toHex t
+  | .bin t => "b:" ++ toHex t
+  | .enum i => "e:" ++ String.ofList ((k.enumKind.table.getD i bUNSET).map Char.ofNat)
+  | .ref id => s!"#{id}"
+  | .undef t => "u:" ++ toHex t
+
+def showElem (k : Kind) : Elem Nat → String
+  | .atom a => showAtom k a
+  | .sel m a => m ++ "/" ++ showAtom k a
+
+def handleAggr (kind h : String) : String :=
+  match parseElemTy kind, unhex h with
+  | some (ty, k), some bytes =>
+    let a : AttrD := { name := "a", ty := .aggr ty, optional := false }
+    match attrSTEPread aggEnv true a (IStream.ofBytes bytes) with
+    | .ok (sev, v, s) =>
+      let vs := match v with
+        | .aggr es => "[" ++ ";".intercalate (es.map (showElem k)) ++ "]"
+        | .aggrNull => "null"
+        | _ => "?"
+      s!"A sev={sev.name} val={vs} pos={s.pos} eof={b2s s.eof} fail={b2s s.failed}"
+    | .error e => s!"A stop {repr e}"
+  | _, _ => "bad-op"
+
 def handle (line : String) : String :=
   match (line.trimAscii.toString.splitOn " ").filter (· ≠ "") with
   | ["rd", kind, opt, _strict, tok, ctx] =>
@@ -114,6 +160,7 @@ def handle (line : String) : String :=
       let r := attrRead dblOps cfg lookup k (opt == "1") (IStream.ofBytes (t ++ c))
       showRead k r ++ " | " ++ showVerdict k (Grammar.classify dblOps lookup k t)
     | _, _, _ => "bad-op"
+  | ["ag", kind, h] => handleAggr kind h
   | ["wr", kind, v] =>
     match parseKind kind with
     | some k =>
@@ -172,8 +219,10 @@ partial def loop (h : IO.FS.Stream) (out : IO.FS.Stream) : IO Unit := do
   out.putStrLn (handle line)
   loop h out
 
+end C09Drv
+
 def main : IO Unit := do
   let stdin ← IO.getStdin
   let stdout ← IO.getStdout
-  loop stdin stdout
+  C09Drv.loop stdin stdout
   stdout.flush
